@@ -31,8 +31,8 @@ func init() {
 	// C11 (concurrent half): stale reads hand a reload to an asynchronous executor.
 	c11 := &ConcOpts{
 		Profile: Profile{Prop: "C11", ForceRef: true, NoExp: true, Keys: [2]int{1, 4}},
-		OpW:     zeroExcept(map[string]int{"load": 30, "get": 8, "set": 8, "invalidate": 4, "advance": 16, "refresh": 5, "setrefreshable": 3}),
-		Tasks:   [2]int{2, 4}, OpsPer: [2]int{4, 16}, Prefill: [2]int{1, 4},
+		OpW:     zeroExcept(map[string]int{"load": 30, "get": 10, "set": 8, "invalidate": 4, "advance": 16, "refresh": 12, "bulkrefresh": 3, "setrefreshable": 3}),
+		Tasks:   [2]int{2, 4}, OpsPer: [2]int{4, 16}, Prefill: [2]int{1, 4}, TinyP: 3,
 		Executors: []string{"default", "queued"}, Lin: true, AllowStall: true, StallP: 5,
 		NonTrivial: func(o *ConcOutcome) bool { return o.Probes["refresh-triggering-gets"] > 0 },
 	}
@@ -349,7 +349,7 @@ func init() {
 		OpW: zeroExcept(map[string]int{"set": 22, "setifabsent": 6, "get": 14, "getentry": 4, "compute": 6, "computeifabsent": 4, "computeifpresent": 4,
 			"invalidate": 4, "load": 6, "bulkget": 2, "advance": 12, "setexpires": 6, "cleanup": 2}),
 		Tasks: [2]int{2, 4}, OpsPer: [2]int{3, 16}, Prefill: [2]int{0, 4},
-		Executors: []string{"default", "queued", "sync"},
+		Executors:  []string{"default", "queued", "sync"},
 		NonTrivial: func(o *ConcOutcome) bool { return o.Switches > 4 && o.Probes["final-expiry-deadlines-judged"] > 0 },
 	}
 	Props["C12"].Engines = append(Props["C12"].Engines, &concEngine{opts: c12exp})
